@@ -71,6 +71,8 @@ pub enum TypeErrorEnum {
     TupleAccessOutOfBounds(usize),
     /// A parameter name is used more than once in a function declaration.
     DuplicateFnParam(String),
+    /// A field name is used more than once in a struct definition.
+    DuplicateStructField(String, String),
     /// An Boolean or number expression was expected.
     ExpectedBoolOrNumberType(Type),
     /// A number expression was expected.
@@ -169,6 +171,9 @@ impl std::fmt::Display for TypeErrorEnum {
             }
             TypeErrorEnum::DuplicateFnParam(name) => f.write_fmt(format_args!(
                 "The function parameter '{name}' is declared multiple times"
+            )),
+            TypeErrorEnum::DuplicateStructField(struct_name, field) => f.write_fmt(format_args!(
+                "The struct '{struct_name}' declares the field '{field}' multiple times"
             )),
             TypeErrorEnum::ExpectedBoolOrNumberType(ty) => f.write_fmt(format_args!(
                 "Expected a Boolean or number type, but found {ty}"
@@ -589,7 +594,12 @@ impl UntypedProgram {
         for (struct_name, struct_def) in self.struct_defs.iter() {
             let meta = struct_def.meta;
             let mut fields = Vec::with_capacity(struct_def.fields.len());
+            let mut field_names = HashSet::with_capacity(struct_def.fields.len());
             for (name, ty) in struct_def.fields.iter() {
+                if !field_names.insert(name.as_str()) {
+                    let e = TypeErrorEnum::DuplicateStructField(struct_name.clone(), name.clone());
+                    errors.push(Some(TypeError::new(e, meta)));
+                }
                 match ty.as_concrete_type(&top_level_defs, meta) {
                     Ok(ty) => fields.push((name.clone(), ty)),
                     Err(e) => errors.extend(e),
